@@ -24,6 +24,18 @@ def root(hashes):
     return level[0]
 
 
+def root_with(hashes, f):
+    """the same tree with an arbitrary combining function f(left || right) -> node (pycoin's public ``hash_f`` argument)"""
+    if len(hashes) == 0:
+        raise ValueError("merkle root of an empty list is not defined")
+    level = [bytes(h) for h in hashes]
+    while len(level) != 1:
+        if len(level) % 2:
+            level = level + [level[-1]]
+        level = [f(level[k] + level[k + 1]) for k in range(0, len(level), 2)]
+    return level[0]
+
+
 def width(n, h):
     """number of nodes at height h (0 = leaves) of the tree over n leaves"""
     return (n + (1 << h) - 1) >> h
@@ -81,6 +93,16 @@ def selftest():
             assert r == dsha(root(hs[:size // 2]) + root(hs[size // 2:]))
         if size > 1:
             assert root(hs[:-1] + [hs[0]]) != r and root(hs[::-1]) != r
+        assert root_with(hs, dsha) == r
         n += 1
+    # generic combining function: hand-expanded trees of 1, 2, 3 and 5 leaves
+    sha = lambda b: hashlib.sha256(b).digest()
+    cat = lambda b: b"(" + b + b")"
+    a, b, c, d, e = [bytes([65 + i]) for i in range(5)]
+    assert root_with([a], sha) == a and root_with([a, b], sha) == sha(a + b)
+    assert root_with([a, b, c], sha) == sha(sha(a + b) + sha(c + c)) != root([a, b, c])
+    assert root_with([a, b, c], cat) == b"((AB)(CC))"
+    assert root_with([a, b, c, d, e], cat) == b"(((AB)(CD))((EE)(EE)))"
+    n += 1
     assert [width(5, h) for h in range(4)] == [5, 3, 2, 1] and height(5) == 3 and height(1) == 0 and height(2) == 1
     return n
